@@ -14,6 +14,7 @@ package sample
 import (
 	"fmt"
 	"math"
+	"math/rand/v2"
 	"os"
 	"sort"
 	"strconv"
@@ -625,6 +626,9 @@ func c18RunCase(out *zzverif.Out, c *c18Case, fix bool) {
 	status := "greedy"
 	kp, km := "", ""
 	expTable := "0"
+	var cumF []float32 // cumulative sums of the filtered list (only when the guard holds)
+	var baseFlags []string
+	haveBase := false
 	if s.temperature != 0 {
 		W := append([]token(nil), L...)
 		shifted := true
@@ -686,9 +690,7 @@ func c18RunCase(out *zzverif.Out, c *c18Case, fix bool) {
 					if !c18IsAsc(cum) {
 						flags = append(flags, "cum")
 					}
-					if !(r*sum <= sum) {
-						flags = append(flags, "r")
-					}
+					cumF = cum
 					if small {
 						// the pick stage on its own
 						fv := c18Vals(fm)
@@ -704,11 +706,12 @@ func c18RunCase(out *zzverif.Out, c *c18Case, fix bool) {
 						out.Case(fmt.Sprintf("pick %s %s", c18Bits(r), c18FList(fv)), obs)
 					}
 				}
-				if len(flags) == 0 {
-					status = "ok"
+				baseFlags = flags
+				haveBase = true
+				status = c18Status(baseFlags, cumF, r)
+				if status == "ok" {
 					out.Count("contract_ok")
 				} else {
-					status = "bad:" + strings.Join(flags, ",")
 					out.L2("contract-broken", line, "stage contract "+status+" although the scaled maximum is finite")
 				}
 			}
@@ -722,15 +725,15 @@ func c18RunCase(out *zzverif.Out, c *c18Case, fix bool) {
 	// ---- the real call
 	res := c18CallSample(&s, c.logits)
 	out.Count("res_" + strings.Fields(res.head)[0])
+	fixFlag := 0
+	if fix {
+		fixFlag = 1
+	}
+	preFlag := 0
+	if pre {
+		preFlag = 1
+	}
 	if c.seed != -1 {
-		fixFlag := 0
-		if fix {
-			fixFlag = 1
-		}
-		preFlag := 0
-		if pre {
-			preFlag = 1
-		}
 		op := fmt.Sprintf("sample %d %d %s %d %s %s %s %s %s", fixFlag, preFlag, c18Bits(s.temperature), s.topK,
 			c18Bits(s.topP), c18Bits(s.minP), c18Bits(r), tokList.String(), expTable)
 		var impl string
@@ -747,6 +750,59 @@ func c18RunCase(out *zzverif.Out, c *c18Case, fix bool) {
 
 	// ---- L2: the property on the real result
 	c18L2(out, c, &s, res, line)
+
+	// ---- the same call with chosen random numbers (a fixed rand.Source): r = 0, the largest r,
+	// and r whose product with the total hits a cumulative sum exactly (the `<` of the walk)
+	if s.temperature != 0 && haveBase && len(cumF) > 0 && c.seed != -1 {
+		total := cumF[len(cumF)-1]
+		ks := []uint32{0, 1<<24 - 1}
+		for tries := 0; tries < 3; tries++ {
+			j := (tries * 7) % len(cumF)
+			k0 := int64(float64(cumF[j]) / float64(total) * (1 << 24))
+			for d := int64(-1); d <= 1; d++ {
+				k := k0 + d
+				if k < 0 || k >= 1<<24 {
+					continue
+				}
+				if float32(k)/(1<<24)*total == cumF[j] {
+					ks = append(ks, uint32(k))
+					out.Count("crafted_r_exact_hit")
+					break
+				}
+			}
+		}
+		for _, k := range ks {
+			rr := float32(k) / (1 << 24)
+			s3 := NewSampler(c.temp, c.k, c.p, c.mp, c.seed, nil)
+			s3.rng = rand.New(c18FixedSrc(uint64(k) << 32))
+			res3 := c18CallSample(&s3, c.logits)
+			out.Count("crafted_r_calls")
+			op := fmt.Sprintf("sample %d %d %s %d %s %s %s %s %s", fixFlag, preFlag, c18Bits(s.temperature), s.topK,
+				c18Bits(s.topP), c18Bits(s.minP), c18Bits(rr), tokList.String(), expTable)
+			out.Case(op, fmt.Sprintf("%s kt=%d kp=%s km=%s c=%s", res3.head, kt, kp, km, c18Status(baseFlags, cumF, rr)))
+			c18L2(out, c, &s3, res3, line+fmt.Sprintf(" # crafted r=%d/2^24", k))
+		}
+	}
+}
+
+// c18FixedSrc is a rand.Source that always returns the same word.
+type c18FixedSrc uint64
+
+func (f c18FixedSrc) Uint64() uint64 { return uint64(f) }
+
+// c18Status joins the contract flags of a run; the only one that depends on r is `r*total <= total`.
+func c18Status(base []string, cum []float32, r float32) string {
+	flags := append([]string(nil), base...)
+	if len(cum) > 0 {
+		sum := cum[len(cum)-1]
+		if !(r*sum <= sum) {
+			flags = append(flags, "r")
+		}
+	}
+	if len(flags) == 0 {
+		return "ok"
+	}
+	return "bad:" + strings.Join(flags, ",")
 }
 
 func c18L2(out *zzverif.Out, c *c18Case, s *Sampler, res c18Result, line string) {
